@@ -279,6 +279,12 @@ def r14_5_shared(repo: Repo, rep: Report):
     r20_1_fork_copies(repo, rep)
     # the caller's context (with its prank record) is deep-copied when a sub-call returns on several paths
     r09_1_snapshot_restore(repo, rep)
+    # deal/store followed by a read: the read skips an earlier write only when the keys are proved different
+    # (shared with C02 R02.1)
+    from hsa.rules.verdicts import check_verdict_sites
+
+    rep.rule("R02.1", "a write is skipped on read-back only under `== unsat` (shared with C02)")
+    check_verdict_sites(repo, rep, "R02.1", modules=("sevm",), only_functions={"sevm.Exec.select", "sevm.Exec.balance_of"})
 
 
 RULES = [r14_5_shared, r14_1_prank_consumption, r14_2_selector_effect_table, r14_3_encoders, r14_4_freshness]
